@@ -243,6 +243,7 @@ func worker(scen string, inst, part, nreq, only int, path string) int {
 	}
 	p := buildPools(wd)
 	ms := apiMethods(wd.api)
+	held := scen == "importing" || scen == "removing1" || scen == "removing2" || strings.HasPrefix(wd.state, "starting:worker-frozen")
 	gr := rng.New(seed*15485863 + uint64(inst)*32452843 + uint64(part)*49979687 + uint64(len(scen)))
 	for k := 0; k < nreq; k++ {
 		g := genCase(wd, p, ms, gr)
@@ -255,6 +256,11 @@ func worker(scen string, inst, part, nreq, only int, path string) int {
 			reqs = jsonReq(g.req)
 		}
 		timeout := 6 * time.Second
+		if !held {
+			// let an import / removal started by an earlier request finish: the abstract state handed to the
+			// model is read before the call and must still hold when the call runs
+			wd.w.WaitTasks(3 * time.Second)
+		}
 		if ml := guarded(timeout, func() string { return modelLine(wd, fmt.Sprintf("%s/%d/%d/%d", scen, inst, part, k), g) }); ml.class != "" && ml.class[0] == 'R' {
 			emit("%s", ml.class)
 		}
@@ -543,8 +549,8 @@ func parent(tier, outPath string, workers int) int {
 	perScen, nreq := 3, 150
 	evInst, evN := 3, 40
 	if tier == "thorough" {
-		perScen, nreq = 16, 400
-		evInst, evN = 12, 80
+		perScen, nreq = 48, 500
+		evInst, evN = 24, 120
 	}
 	if v := os.Getenv("C19_INSTANCES"); v != "" {
 		perScen, _ = strconv.Atoi(v)
